@@ -15,7 +15,7 @@ START_TYPES = {
 }
 
 POSTFIX = {
-    "idx": "[0]", "callidx": "(0)", "callidx2": "(0, 0)", "callidx3": "(0, 0, 0)", "callmix": "(0, multi::irange(0, 1))", "front": ".front()", "back": ".back()", "call0": "()", "callrng": "(multi::irange(0, 1))",
+    "idx": "[0]", "callidx": "(0)", "callidx2": "(0, 0)", "callidx3": "(0, 0, 0)", "callidx4": "(0, 0, 0, 0)", "callidx5": "(0, 0, 0, 0, 0)", "callmix": "(0, multi::irange(0, 1))", "front": ".front()", "back": ".back()", "call0": "()", "callrng": "(multi::irange(0, 1))",
     "callall": "(multi::_)", "rotated": ".rotated()", "unrotated": ".unrotated()", "reversed": ".reversed()", "sliced": ".sliced(0, 1)",
     "strided": ".strided(1)", "dropped": ".dropped(0)", "taked": ".taked(1)", "transposed": ".transposed()", "diagonal": ".diagonal()",
     "flatted": ".flatted()", "partitioned": ".partitioned(1)", "chunked": ".chunked(1)", "as_const": ".as_const()",
@@ -68,6 +68,25 @@ def reaches(cat, dim, e):
     return []
 
 
+# the object of the same category reached from a MUTABLE view of the same dimensionality: a read-only one must not convert into it
+MUTABLE_TWIN = {
+    "iterator": "decltype(std::declval<MV{d}&>().begin())",
+    "eiter": "decltype(std::declval<MV{d}&>().elements().begin())",
+    "erange": "decltype(std::declval<MV{d}&>().elements())",
+    "cursor": "decltype(std::declval<MV{d}&>().home())",
+}
+
+
+def extra_names(cat, dim):
+    """labels of the observations that follow the reaches, in order"""
+    out = []
+    if cat == "view" and dim >= 1:
+        out += ["a", "s"]
+    if cat in MUTABLE_TWIN and 1 <= dim <= 5:
+        out += ["c"]
+    return out
+
+
 def tu_source(paths):
     """paths: list of (id, record).  Returns C++ source printing `id exists r...` lines."""
     out = ["#include <boost/multi/array.hpp>", "#include <cstdio>", "#include <type_traits>", "#include <utility>",
@@ -77,6 +96,10 @@ def tu_source(paths):
            "using MV1 = multi::subarray<int, 1>; using MV2 = multi::subarray<int, 2>; using MV3 = multi::subarray<int, 3>; using MV4 = multi::subarray<int, 4>; using MV5 = multi::subarray<int, 5>;",
            "#define OBS(NAME, EXPR) template<class S, class = void> struct NAME { static constexpr int v = -1; }; "
            "template<class S> struct NAME<S, std::void_t<decltype(EXPR)>> { static constexpr int v = std::is_assignable_v<decltype(EXPR), int> ? 1 : 0; };",
+           # (implicit conversions only: is_constructible also answers yes for explicit constructor templates that are not SFINAE-friendly and
+           #  fail when instantiated)  (REBIND: assignment re-seats an iterator or cursor, so it counts as a conversion; assigning to an elements range copies the elements instead)
+           "#define OBSC(NAME, EXPR, TO, REBIND) template<class S, class = void> struct NAME { static constexpr int v = -1; }; "
+           "template<class S> struct NAME<S, std::void_t<decltype(EXPR)>> { static constexpr int v = (std::is_convertible_v<decltype(EXPR), TO> || (REBIND && std::is_assignable_v<TO&, decltype(EXPR)>)) ? 1 : 0; };",
            "#define OBSA(NAME, EXPR, FROM) template<class S, class = void> struct NAME { static constexpr int v = -1; }; "
            "template<class S> struct NAME<S, std::void_t<decltype(EXPR)>> { static constexpr int v = std::is_assignable_v<decltype(EXPR), FROM> ? 1 : 0; };"]
     main = ["int main() {"]
@@ -94,6 +117,9 @@ def tu_source(paths):
             # is swap(mutable temporary view, x) accepted?  (-1: rejected)
             out.append("OBS(P%d_s, swap(std::declval<MV%d&&>(), %s))" % (pid, rec["dim"], e))
             names.append("P%d_s" % pid)
+        if "c" in extra_names(rec["cat"], rec["dim"]):
+            out.append("OBSC(P%d_c, %s, %s, %s)" % (pid, e, MUTABLE_TWIN[rec["cat"]].format(d=rec["dim"]), "false" if rec["cat"] == "erange" else "true"))
+            names.append("P%d_c" % pid)
         fmt = "%d" + " %d" * len(names)
         main.append('  std::printf("%s\\n", %d, %s);' % (fmt, pid, ", ".join("%s<%s>::v" % (n, st) for n in names)))
     main.append("  return 0;\n}")
